@@ -88,7 +88,7 @@ def run(ctx):
     def tweak(c, r):
         c["flags"] |= 0x10000
         c["max_cost"] = 11000000000
-    g, cases, consts_hex, valid = condlib.make_cases(rng.fork("cases"), n, None, tweak)
+    g, cases, consts_hex, valid = condlib.make_cases(rng.fork("cases"), n, None, tweak, matrix=True)
     lines = [c["line"] for c in cases]
     impl = C.run_lines(C.VH(UNIT), lines)
     condlib.stream_stats(rep, "cond.cost", cases, impl)
